@@ -90,6 +90,11 @@ class KeyClasses:
                 isinstance(it.func.value, ast.Name) and isinstance(target.elts[0], ast.Name):
             coll = self.dictkeys.get(it.func.value.id, f"keys({it.func.value.id})")
             self.loopvar[target.elts[0].id] = f"elem({coll})"
+        elif isinstance(target, ast.Name) and isinstance(it, ast.Name) and it.id in self.dictkeys:
+            self.loopvar[target.id] = f"elem({self.dictkeys[it.id]})"          # iterating a dictionary walks its keys
+        elif isinstance(target, ast.Name) and isinstance(it, ast.Call) and isinstance(it.func, ast.Attribute) and it.func.attr == "keys" and \
+                isinstance(it.func.value, ast.Name) and it.func.value.id in self.dictkeys:
+            self.loopvar[target.id] = f"elem({self.dictkeys[it.func.value.id]})"
         elif isinstance(target, ast.Name):
             self.loopvar[target.id] = f"elem({src(it)})"
 
@@ -162,6 +167,9 @@ class RebindSem(Sem):
             v = st.value
             if isinstance(v, ast.Name) and v.id in self.saved:
                 return k, True, v.id
+            # saved_container[key] with the same key the store is made under
+            if isinstance(v, ast.Subscript) and isinstance(v.value, ast.Name) and v.value.id in self.saved and self.kc.cls(v.slice) == k:
+                return k, True, v.value.id
             return k, False, None
         if isinstance(st, ast.Delete) and any(_is_store_target(t) for t in st.targets):
             t = next(t for t in st.targets if _is_store_target(t))
